@@ -137,7 +137,8 @@ func (ref *RefExp) updateForks(fork map[*CallStm]CollectionIndex) (*RefExp, erro
 	}
 	var errs ErrorList
 	if len(ref.Forks) > 0 {
-		for src, j := range fork {
+		for _, src := range sortedCalls(fork) {
+			j := fork[src]
 			if i, ok := ref.Forks[src]; ok {
 				if i.IndexSource() != nil {
 					if j.IndexSource() == nil {
